@@ -579,7 +579,7 @@ def field_reads(fn, owner_rx, field):
 # ------------------------------------------------------------------------------------------------
 # HELD: lock guards held at each point
 
-GUARD_RX = re.compile(r"^std::sync::(?:poison::)?(?:mutex::)?(MutexGuard|RwLockReadGuard|RwLockWriteGuard)<'[^,]*, (.*)>$")
+GUARD_RX = re.compile(r"^std::sync::(?:poison::)?(?:mutex::|rwlock::)?(MutexGuard|RwLockReadGuard|RwLockWriteGuard)<'[^,]*, (.*)>$")
 GUARD_ANY = re.compile(r"std::sync::(?:poison::)?(?:mutex::|rwlock::)?(MutexGuard|RwLockReadGuard|RwLockWriteGuard)<")
 LOCK_CALL = re.compile(r"std::sync::(?:poison::)?(?:mutex::|rwlock::)?(Mutex|RwLock)::(lock|read|write|try_lock|try_read|try_write)$")
 
